@@ -95,6 +95,10 @@ def c16_group(seed, idx, algo):
     if exact:
         force0["bmode"] = rnd.choice(["unit", "shift", "pow2", "neg"])
         force0["qmode"] = rnd.choice(["dyadic", "half", "end"])
+    if algo not in ("VROOM", "StroquOOL"):
+        # every partition class, and odd as well as even arities, under every algorithm
+        force0["kind"] = ["binary", "kary", "randBinary", "dimBinary", "randKary", "kary", "kary", "binary"][idx % 8]
+        force0["K"] = [3, 5, 7, 2, 4, 3, 11, 3][idx % 8]
     base = gen_algo_case(seed, idx, algo, force=force0)
     out = [base]
     if base.trace is None or base.trace["stopped"]:
